@@ -1464,8 +1464,13 @@ impl Schedule {
             // if given depot is not available, use overflow depot
             let overflow_depot_ids = self.network.overflow_depot_idxs();
             nodes[0] = overflow_depot_ids.1;
-            let tour_len = nodes.len();
-            let _ = std::mem::replace(&mut nodes[tour_len - 1], overflow_depot_ids.2);
+            if self.network.node(last_node).is_depot() {
+                let tour_len = nodes.len();
+                nodes[tour_len - 1] = overflow_depot_ids.2;
+            } else {
+                // path does not end with a depot, so no node must be overwritten
+                nodes.push(overflow_depot_ids.2);
+            }
 
             /* println!(
                 "\x1b[93mwarning:\x1b[0m Tour for {} violates depot constraints at {}. Using overflow depot instead.",
